@@ -60,9 +60,36 @@ def table_facts(H, repo, f, eng):
         r"if pw\.removable\.Load\(\) && pw\.p\.fileSystem != nil \{\s*go func\(pw \*partWrapper\) \{\s*pw\.p\.fileSystem\.MustRMAll\(pw\.p\.path\)", d) is not None
 
 
+def trace_fence_facts(H, repo, f):
+    """F19 repair: the core snapshot is pinned and the secondary indexes are hard-linked inside ONE shared section of
+    the publication fence; the pin must come after the RLock (a pin taken before it can be overtaken by a queued
+    publication) and the section must end before the core parts are linked."""
+    rel = "banyand/trace/snapshot.go"
+    b = _body(H, repo, rel, r"func \(tst \*tsTable\) TakeFileSnapshot\(dst string\) \(success bool, err error\) \{")
+    rlock = _idx(b, "tst.snapshotPublicationMu.RLock()", "TakeFileSnapshot", rel)
+    pin = _idx(b, "tst.currentSnapshot()", "TakeFileSnapshot", rel)
+    sidx = _idx(b, "tst.takeSidxFileSnapshotsLocked(dst)", "TakeFileSnapshot", rel)
+    loop = _idx(b, "for _, pw := range snapshot.parts", "TakeFileSnapshot", rel)
+    f["traceCorePinnedInsideFence"] = (rlock < pin < sidx < loop and b.count("snapshotPublicationMu.RLock()") == 1
+                                       and b.count("tst.currentSnapshot()") == 1)
+    f["traceNilSnapshotReleasesFence"] = re.search(
+        r"if snapshot == nil \{\s*tst\.snapshotPublicationMu\.RUnlock\(\)\s*return false, storage\.ErrNoCurrentSnapshot\s*\}", b) is not None
+    # nothing but the helper releases the fence on the normal path, and nothing re-acquires it
+    f["traceFenceReleasedOnlyByHelper"] = b.count("snapshotPublicationMu.RUnlock()") == 1 and "snapshotPublicationMu.Lock()" not in b
+    h = _body(H, repo, rel, r"func \(tst \*tsTable\) takeSidxFileSnapshotsLocked\(dst string\) error \{")
+    f["traceIndexLinkedInsideFence"] = (h.lstrip("{ \n\t").startswith("defer tst.snapshotPublicationMu.RUnlock()")
+                                        and "v.TakeFileSnapshot(indexDir)" in h and h.count("snapshotPublicationMu") == 1)
+    c = _body(H, repo, "banyand/trace/introducer.go", r"func \(tst \*tsTable\) commitSnapshotTransaction\(txn \*snapshotpkg\.Transaction\) \{")
+    f["tracePublicationsHoldFenceExclusively"] = re.search(
+        r"tst\.snapshotPublicationMu\.Lock\(\)\s*defer tst\.snapshotPublicationMu\.Unlock\(\)\s*txn\.Commit\(\)", c) is not None
+    src = H.strip_comments(H.read(repo, "banyand/trace/introducer.go"))
+    f["traceSinglePublicationSite"] = src.count("txn.Commit()") == 1
+
+
 def facts(repo, f, H):
     for eng in ("measure", "stream", "trace"):
         table_facts(H, repo, f, eng)
+    trace_fence_facts(H, repo, f)
 
     rel = "banyand/internal/storage/segment.go"
     b = _body(H, repo, rel, r"func \(s \*segment\[T, O\]\) snapshotInto\(dst string\) \(bool, error\) \{")
